@@ -33,6 +33,7 @@ class World:
             self.work,
             epoch=float(clk.get("epoch", 1_700_000_000.25)),
             c_call=float(clk.get("c_call", 1.1e-6)),
+            mono_origin=float(clk.get("mono_origin", 1000.0)),
             faults=[dict(f) for f in faults if f["kind"].startswith("clk_")],
         )
         pr = plan.get("prng", {})
